@@ -491,6 +491,7 @@ func c10Recover(c *Ctx, rule string) {
 	// ---------------- R10.1 ----------------
 	n := 0
 	payloadFns := map[*ssa.Function]bool{}
+	recoverers := map[*ssa.Function][]*ssa.Function{}
 	c.EachRootFunc(func(fn *ssa.Function) {
 		if fn.Pkg == nil {
 			return
@@ -535,13 +536,20 @@ func c10Recover(c *Ctx, rule string) {
 				if !ok {
 					return
 				}
-				mk, ok := df.Call.Value.(*ssa.MakeClosure)
-				if !ok {
+				// the deferred function itself - a literal, or a named function deferred directly - calls recover()
+				var g *ssa.Function
+				if mk, ok := df.Call.Value.(*ssa.MakeClosure); ok {
+					g, _ = mk.Fn.(*ssa.Function)
+				} else if sc := df.Call.StaticCallee(); sc != nil && len(sc.Blocks) > 0 {
+					g = sc
+				}
+				if g == nil {
 					return
 				}
-				for _, c2 := range Calls(mk.Fn.(*ssa.Function)) {
-					if CallBuiltin(c2) == "recover" {
-						rec = Dominates(df, call)
+				for _, c2 := range Calls(g) {
+					if CallBuiltin(c2) == "recover" && Dominates(df, call) {
+						rec = true
+						recoverers[fn] = append(recoverers[fn], g)
 					}
 				}
 			})
@@ -557,7 +565,11 @@ func c10Recover(c *Ctx, rule string) {
 			continue
 		}
 		okNil, okErr := false, false
-		for _, f := range Region(fn) {
+		region := Region(fn)
+		for _, g := range recoverers[fn] {
+			region = append(region, Region(g)...)
+		}
+		for _, f := range region {
 			AllInstrs(f, func(i ssa.Instruction) {
 				switch x := i.(type) {
 				case *ssa.Call:
